@@ -96,6 +96,9 @@ theorem dft_const_zero (c : ℂ) : dft3 (n := n) (fun _ => c) 0 = (n : ℂ) ^ 3 
     ZMod.card, nsmul_eq_mul]
   push_cast; ring
 
+example : dft3 (n := 2) (fun _ => (3 : ℂ)) 0 = 24 := by
+  rw [dft_const_zero]; norm_num
+
 example : dft3 (n := 3) (fun _ => (5 : ℂ)) (0, 2, 0) = 0 :=
   dft_const 5 (0, 2, 0) (by decide)
 
@@ -106,6 +109,9 @@ omit [NeZero n] in
 theorem deposit_perm_invariant {Part : Type} {shift : Idx n → Part → Part} {D : List Part → Grid n}
     (hD : IsDeposit shift D) {P Q : List Part} (hp : P.Perm Q) : D P = D Q :=
   deposit_perm hD hp
+
+example : ngp (n := 3) [((0, 1, 2), 1), ((2, 2, 0), 3)] = ngp (n := 3) [((2, 2, 0), 3), ((0, 1, 2), 1)] :=
+  deposit_perm_invariant ngp_isDeposit (List.Perm.swap _ _ _)
 
 /-- **power_perm_invariant.**  Permuting the particles (weights travel with their particle: a particle
 is a `Part`) leaves the Fourier field, hence every `|δ_k|²` and every binned output, unchanged — with or
@@ -151,6 +157,11 @@ theorem fourierField_translate {Part : Type} {shift : Idx n → Part → Part} {
   · simp only [Bool.false_eq_true, if_false]; ring
   · simp only [if_true]; ring
 
+example (k : Idx 2) :
+    fourierField (n := 2) ngp ngp false (codedPhase 2) (fun _ => 1) ([((0, 0, 0), 1), ((1, 0, 1), 2)].map (ngpShift (1, 1, 0))) k =
+      kern 2 (dot k (1, 1, 0)) * fourierField (n := 2) ngp ngp false (codedPhase 2) (fun _ => 1) [((0, 0, 0), 1), ((1, 0, 1), 2)] k :=
+  fourierField_translate ngp_isDeposit ngp_isDeposit _ _ _ _ _ _
+
 /-- **power_translation_invariant.**  Translating all particles by whole cells along any axes, wrapped
 periodically, leaves every `|δ_k|²` unchanged, with and without interlacing and compensation. -/
 theorem power_translation_invariant {Part : Type} {shift : Idx n → Part → Part} {D D' : List Part → Grid n}
@@ -175,6 +186,13 @@ theorem cross_power_translation_invariant {Part : Type} {shift : Idx n → Part 
   have : ∀ a b : ℂ, (starRingEnd ℂ) (kern n (dot k s)) * (starRingEnd ℂ) a * (kern n (dot k s) * b) =
       ((starRingEnd ℂ) (kern n (dot k s)) * kern n (dot k s)) * ((starRingEnd ℂ) a * b) := fun a b => by ring
   rw [this, h, one_mul]
+
+example :
+    crossPower (fourierField (n := 2) ngp ngp true (codedPhase 2) (fun _ => 1) ([((0, 0, 0), 1)].map (ngpShift (0, 1, 1))))
+        (fourierField (n := 2) ngp ngp true (codedPhase 2) (fun _ => 1) ([((1, 0, 1), 2), ((1, 1, 1), 1)].map (ngpShift (0, 1, 1)))) =
+      crossPower (fourierField (n := 2) ngp ngp true (codedPhase 2) (fun _ => 1) [((0, 0, 0), 1)])
+        (fourierField (n := 2) ngp ngp true (codedPhase 2) (fun _ => 1) [((1, 0, 1), 2), ((1, 1, 1), 1)]) :=
+  cross_power_translation_invariant ngp_isDeposit ngp_isDeposit _ _ _ _ _ _
 
 /-- … hence every binned output (`power`, `poles`, and trivially `N_mode`, `k_avg`) is unchanged -/
 theorem table_translation_invariant {Part β γ ι : Type} [DecidableEq β] [DecidableEq γ]
@@ -213,6 +231,13 @@ theorem cross_table_eq_auto {β γ ι : Type} [DecidableEq β] [DecidableEq γ] 
     (F : Idx n → ℂ) : binTable B (crossPower F F) = binTable B (autoPower F) := by
   rw [cross_eq_auto]
 
+example :
+    binTable (⟨Finset.univ, fun k => some k.1, fun _ => some (), fun _ => 2, fun _ => 1, fun _ _ => 1⟩ :
+        Binning 2 (ZMod 2) Unit Unit) (crossPower (fun k => if k.1 = 0 then ⟨3, 4⟩ else ⟨0, 1⟩) (fun k => if k.1 = 0 then ⟨3, 4⟩ else ⟨0, 1⟩)) =
+      binTable ⟨Finset.univ, fun k => some k.1, fun _ => some (), fun _ => 2, fun _ => 1, fun _ _ => 1⟩
+        (autoPower (fun k => if k.1 = 0 then ⟨3, 4⟩ else ⟨0, 1⟩)) :=
+  cross_table_eq_auto _ _
+
 example : crossPower (n := 2) (fun _ => ⟨3, 4⟩) (fun _ => ⟨3, 4⟩) (1, 0, 1) = 25 := by
   rw [cross_eq_auto]
   simp [autoPower, Complex.normSq_apply]
@@ -231,6 +256,17 @@ theorem nmode_particle_free {β γ ι : Type} [DecidableEq β] [DecidableEq γ] 
     (binTable B p).k_avg = (binTable B q).k_avg ∧
     (binTable B p).N_mode = B.counts :=
   ⟨rfl, rfl, rfl, rfl⟩
+
+/-- two different raw powers on the 2³ mesh, one bin per `kx`: the same `N_mode = 4·2` -/
+example :
+    let B : Binning 2 (ZMod 2) Unit Unit :=
+      ⟨Finset.univ, fun k => some k.1, fun _ => some (), fun _ => 2, fun _ => 1, fun _ _ => 1⟩
+    (binTable B (fun _ => 1)).N_mode = (binTable B (fun k => if k.2.2 = 0 then 7 else 0)).N_mode ∧
+      (binTable B (fun _ => 1)).N_mode 1 = 8 := by
+  intro B
+  refine ⟨(nmode_particle_free B _ _).1, ?_⟩
+  show B.counts 1 = 8
+  decide
 
 /-! ### threads -/
 
@@ -343,5 +379,9 @@ omit [NeZero n] in
 theorem codedPhase_unit (k : Idx n) : Complex.normSq (codedPhase n k) = 1 := by
   rw [Complex.normSq_eq_norm_sq, codedPhase, mul_comm, Complex.norm_exp_ofReal_mul_I]
   norm_num
+
+/-- the folding is the code's: on the 5-mesh row 2 gets the frequency −3 (`fftfreq` would say +2) -/
+example : Complex.normSq (codedPhase 5 (2, 3, 1)) = 1 ∧ foldShift 5 2 = -3 ∧ fftfreqInt 5 2 = 2 :=
+  ⟨codedPhase_unit _, by decide, by decide⟩
 
 end AbacusVerif.Power
